@@ -89,6 +89,8 @@ def detect(sid, props, tier):
             print(sid, p, 'exit', rc, vio[0][:160] if vio else '')
     finally:
         sh('git -C %s checkout -- .' % REPO)
+        # the runs above rewrote evidence/<P>.json from a *changed* tree: put the committed files back
+        sh('git -C %s checkout -- %s' % (VERIF, ' '.join('evidence/%s.json' % p for p in props)))
     mp = os.path.join(d, 'meta.json')
     meta = json.load(open(mp)) if os.path.exists(mp) else {}
     meta.setdefault('detection', {}).update(results)
